@@ -299,6 +299,56 @@ func describeOset(fn *ssa.Function, o oset) string {
 	return strings.Join(parts, " + ")
 }
 
+// ruleC04c: the read path never triggers a flush.
+func ruleC04c(c *Ctx, rule string) {
+	c.describe(rule, "reg (who-calls): only the ingest path may ask the memory cap to flush — (*DB).capMemorySize is called with allowFlush == true only from (*table).doInsert; the query path ((*queryable).Iterate) passes the constant false; no function reachable by static calls from the query entry points calls forceFlush/FlushAll")
+	n := 0
+	for _, fn := range c.P.ModFns {
+		if pkgOf(fn) != "z" {
+			continue
+		}
+		for _, call := range callsTo(fn, "(*z.DB).capMemorySize") {
+			n++
+			top := fn
+			for top.Parent() != nil {
+				top = top.Parent()
+			}
+			v, isC := constBool(call.Common().Args[1])
+			ingest := stableName(top) == "(*z.table).doInsert"
+			ok := isC && (!v || ingest)
+			c.check(rule, stableName(fn)+" calls capMemorySize without allowing a flush", call.Pos(), ok, "allowFlush is the constant false (or this is the ingest path)", "the memory cap may force-flush memstores from a function that is not on the ingest path: running a query rewrites the file store (a disk-only probe returns different rows before and after the query)")
+		}
+	}
+	c.floor(rule, "capMemorySize call sites", n, 2)
+	// query entry points never reach forceFlush
+	seen := map[*ssa.Function]bool{}
+	var stack []*ssa.Function
+	for _, name := range []string{"(*z.queryable).Iterate", "(*z.DB).Query", "(*z.table).iterate"} {
+		if f := c.P.Func(name); f != nil {
+			stack = append(stack, f)
+			seen[f] = true
+		}
+	}
+	bad := ""
+	for len(stack) > 0 {
+		f := stack[len(stack)-1]
+		stack = stack[:len(stack)-1]
+		for _, g := range withAnon(f) {
+			for _, call := range calls(g) {
+				cn := calleeName(call)
+				if cn == "(*z.table).forceFlush" || cn == "(*z.rowStore).forceFlush" || cn == "(*z.DB).FlushAll" {
+					bad = stableName(g) + " -> " + cn
+				}
+				if sc := call.Common().StaticCallee(); sc != nil && pkgOf(sc) == "z" && !seen[sc] && sc.Name() != "capMemorySize" {
+					seen[sc] = true
+					stack = append(stack, sc)
+				}
+			}
+		}
+	}
+	c.check(rule, "query entry points never force a flush", token.NoPos, bad == "", "no static path from Query/Iterate to forceFlush/FlushAll", "the query path can force a flush: "+bad)
+}
+
 func init() {
 	register(&PropSpec{
 		ID:          "C04",
@@ -329,6 +379,6 @@ func init() {
 				}
 				c.Obs = append(c.Obs, o)
 			}
-		}},
+		}, func(c *Ctx) { ruleC04c(c, "C04.c") }},
 	})
 }
